@@ -6,6 +6,7 @@ for every k; every operation is a short sequence of pointer-level steps, each co
 import Cntgs.AllocProofs
 import Cntgs.World
 import Cntgs.WorldProofs
+import Cntgs.RefIter
 namespace Cntgs.C17
 
 /-- a throwing allocation changes nothing in the ledger -/
@@ -264,5 +265,135 @@ theorem failed_step (ps : List Param) (hl : ListOK ps) (w : World) (A : Nat → 
     (hpre : op.Pre ps w A) (hprev : w.threw = false) (hthrow : (op.apply ps w).threw = true) :
     WInv ps (op.apply ps w) (op.aspecFail A) :=
   step_refines_fail ps hl w A h op hpre hprev hthrow
+
+
+/-! ### construction and assignment of a ContiguousElement under a throwing allocator -/
+
+theorem make_fail (h : Heap) (units unit alloc : Nat) (h' : Heap) (hm : Ptr.make h units unit alloc = (h', none)) :
+    h'.live = h.live ∧ h'.errs = h.errs := by
+  simp only [Ptr.make] at hm
+  split at hm <;> simp at hm
+  rename_i hal
+  obtain ⟨rfl⟩ := hm
+  obtain ⟨e1, e2, _⟩ := allocate_fail _ _ _ _ _ hal
+  exact ⟨e1, e2⟩
+
+/-- what a failed element operation may have changed: nothing — the elements (values, sizes, blocks), the vectors and
+    the ledger are as before -/
+def ElemUntouched (ew ew' : EWorld) : Prop :=
+  ew'.elems = ew.elems ∧ ew'.w.vecs = ew.w.vecs ∧ ew'.w.heap.live = ew.w.heap.live ∧ ew'.w.heap.errs = ew.w.heap.errs
+
+/-- an element constructed from a reference (const, lvalue, or rvalue: `mv`): when the allocation throws no element
+    comes into being and the referenced vector element has not been moved from -/
+theorem element_from_reference_fault (ew : EWorld) (ps : List Param) (k s i alloc : Nat) (mv : Bool)
+    (hthrow : (ew.elemFromRef ps k s i alloc mv).w.threw = true) (hprev : ew.w.threw = false) :
+    ElemUntouched ew (ew.elemFromRef ps k s i alloc mv) := by
+  unfold EWorld.elemFromRef at hthrow ⊢
+  cases hv : (ew.w.vecs s).bind (fun v => (v.get i).map (fun e => (v, e))) with
+  | none => rw [hv] at hthrow; simp only at hthrow; rw [hprev] at hthrow; exact absurd hthrow (by simp)
+  | some ve =>
+    obtain ⟨v, e⟩ := ve
+    rw [hv] at hthrow
+    simp only at hthrow ⊢
+    cases hm : Ptr.make ew.w.heap (units (elemBytes ps e) (storageAl ps)) (storageAl ps) alloc with
+    | mk h1 r =>
+      rw [hm] at hthrow
+      cases r with
+      | some p => simp at hthrow
+      | none =>
+        obtain ⟨e1, e2⟩ := make_fail _ _ _ _ _ hm
+        exact ⟨rfl, rfl, e1, e2⟩
+
+/-- copy construction of an element (plain and allocator-extended) -/
+theorem element_copy_fault (ew : EWorld) (ps : List Param) (a b : Nat) (hprev : ew.w.threw = false)
+    (hthrow : (ew.elemCopy ps a b).w.threw = true) : ElemUntouched ew (ew.elemCopy ps a b) := by
+  unfold EWorld.elemCopy at hthrow ⊢
+  split at hthrow
+  · rw [hprev] at hthrow; exact absurd hthrow (by simp)
+  · split at hthrow
+    · rename_i hm
+      simp only [hm]
+      obtain ⟨e1, e2⟩ := make_fail _ _ _ _ _ hm
+      exact ⟨rfl, rfl, e1, e2⟩
+    · simp at hthrow
+
+theorem element_copy_alloc_fault (ew : EWorld) (ps : List Param) (a b alloc : Nat) (hprev : ew.w.threw = false)
+    (hthrow : (ew.elemCopyA ps a b alloc).w.threw = true) : ElemUntouched ew (ew.elemCopyA ps a b alloc) := by
+  unfold EWorld.elemCopyA at hthrow ⊢
+  split at hthrow
+  · rw [hprev] at hthrow; exact absurd hthrow (by simp)
+  · split at hthrow
+    · rename_i hm
+      simp only [hm]
+      obtain ⟨e1, e2⟩ := make_fail _ _ _ _ _ hm
+      exact ⟨rfl, rfl, e1, e2⟩
+    · simp at hthrow
+
+/-- allocator-extended move construction: only the branch for unequal allocators allocates; when that throws the source
+    still holds its values and its block (the constructor is `noexcept` only for always-equal allocators) -/
+theorem element_move_alloc_fault (ew : EWorld) (ps : List Param) (a b alloc : Nat) (hprev : ew.w.threw = false)
+    (hthrow : (ew.elemMoveA ps a b alloc).w.threw = true) :
+    ElemUntouched ew (ew.elemMoveA ps a b alloc) ∧
+    ∃ ea, ew.elems a = some ea ∧ ew.w.acfg.eq alloc ea.ptr.alloc = false := by
+  unfold EWorld.elemMoveA at hthrow ⊢
+  split at hthrow
+  · rw [hprev] at hthrow; exact absurd hthrow (by simp)
+  · rename_i ea hea
+    split at hthrow
+    · simp at hthrow
+    · rename_i hne
+      split at hthrow
+      · rename_i hm
+        simp only [hne, hm]
+        obtain ⟨e1, e2⟩ := make_fail _ _ _ _ _ hm
+        exact ⟨⟨rfl, rfl, e1, e2⟩, ea, hea, by simpa using hne⟩
+      · simp at hthrow
+
+/-- the plain move constructor and `swap` never allocate, so they never throw -/
+theorem element_move_swap_nothrow (ew : EWorld) (a b : Nat) (hprev : ew.w.threw = false) :
+    (ew.elemMove a b).w.threw = false ∧ (ew.elemSwap a b).w.threw = false := by
+  refine ⟨?_, ?_⟩
+  · unfold EWorld.elemMove; split <;> simp [hprev]
+  · unfold EWorld.elemSwap; repeat' (first | rfl | exact hprev | split)
+
+/-- copy assignment of an element with a throwing allocator (lists with a VaryingSize parameter, or propagating unequal
+    allocators): the target still holds its former values in its former block — its fields are destroyed only after the
+    allocation (the former code destroyed them first and destroyed them again in the destructor) — and the source, the
+    vectors and the ledger are untouched -/
+theorem element_copy_assign_fault (ew : EWorld) (ps : List Param) (a b : Nat) (ea eb : ElemSt)
+    (ha : ew.elems a = some ea) (hb : ew.elems b = some eb) (hw : ew.w.heap.WF)
+    (hown : Owns ew.w.heap ew.w.acfg (storageAl ps) eb.ptr) (hprev : ew.w.threw = false)
+    (hthrow : (ew.elemAssign ps a b).w.threw = true) :
+    let ew' := ew.elemAssign ps a b
+    (∃ eb', ew'.elems b = some eb' ∧ eb'.val = eb.val ∧ eb'.bytes = eb.bytes ∧ eb'.ptr.blk = eb.ptr.blk ∧ eb'.ptr.units = eb.ptr.units) ∧
+    (∀ k, k ≠ b → ew'.elems k = ew.elems k) ∧ ew'.w.vecs = ew.w.vecs ∧ ew'.w.heap.live = ew.w.heap.live ∧
+    ew'.w.heap.errs = ew.w.heap.errs := by
+  intro ew'
+  have hdef : ew' = ew.elemAssign ps a b := rfl
+  unfold EWorld.elemAssign at hdef hthrow
+  by_cases hab : a = b
+  · simp only [hab, if_true] at hthrow; simp at hthrow
+  · simp only [hab, if_false, ha, hb] at hdef hthrow
+    split at hthrow
+    · simp at hthrow
+    · rename_i hbr
+      simp only [hbr, Bool.false_eq_true, if_false] at hdef
+      have hspec := copyAssign_spec ew.w.heap hw ew.w.acfg (storageAl ps) eb.ptr ea.ptr hown
+      cases hr : eb.ptr.copyAssign ew.w.heap ew.w.acfg (storageAl ps) ea.ptr with
+      | mk h1 r2 =>
+        cases r2 with
+        | mk p1 ok =>
+          rw [hr] at hspec hthrow hdef
+          cases ok with
+          | true => simp at hthrow
+          | false =>
+            simp only at hdef
+            obtain ⟨he, hor⟩ := hspec
+            rcases hor with ⟨h1', _⟩ | ⟨_, h2, h3, h4⟩
+            · simp at h1'
+            · rw [hdef]
+              refine ⟨⟨{ eb with ptr := p1 }, by simp [EWorld.setE], rfl, rfl, h3, h4⟩, ?_, rfl, h2, he⟩
+              intro k hk
+              simp [EWorld.setE, hk]
 
 end Cntgs.C17
